@@ -21,6 +21,8 @@ impl ParseIntError { #[verifier::external_body] pub fn to_string(&self) -> Strin
 pub use std::array::TryFromSliceError;
 #[verifier::external_type_specification] #[verifier::external_body] pub struct ExTryFromSliceError(std::array::TryFromSliceError);
 
+pub assume_specification<T, E> [Result::<T, E>::unwrap_or] (o: Result<T, E>, d: T) -> (r: T)
+    ensures r == (match o { Ok(v) => v, Err(_) => d });
 pub assume_specification<T, F: FnOnce() -> Option<T>> [Option::<T>::or_else] (o: Option<T>, f: F) -> (r: Option<T>)
     requires o is None ==> f.requires(()),
     ensures o is Some ==> r == o, o is None ==> f.ensures((), r);
